@@ -7,7 +7,8 @@ def handlers : List (List String → Option String) := [
   Lou.Alloc.handle?,
   Lou.Resolve.handle?,
   Lou.Log.handle?,
-  Lou.HyphProto.handle?
+  Lou.HyphProto.handle?,
+  Lou.Meta.handle?
 ]
 
 def handleLine (line : String) : String :=
